@@ -191,6 +191,340 @@ pub fn generate(prop: &str, tier: &str, seed: u64) -> Vec<Session> {
     out
 }
 
-pub fn meta(_prop: &str, _tier: &str, _seed: u64) -> String {
-    String::new()
+/// Final observation of a session run on a fresh runner (None if it died).
+fn final_obs(s: &Session, with_dirty: bool, with_sp: bool) -> Result<String, String> {
+    use crate::exec::Runner;
+    let r = std::panic::catch_unwind(std::panic::AssertUnwindSafe(|| {
+        let mut r = Runner::new(s.columns, s.lines, s.bytes);
+        {
+            let mut t = r.tap.lock().unwrap();
+            t.quiet = true;
+        }
+        for op in &s.ops {
+            r.step(op);
+            if r.dead() {
+                return Err("panic".to_string());
+            }
+        }
+        let t = match r.tap.lock() {
+            Ok(g) => g,
+            Err(p) => p.into_inner(),
+        };
+        Ok(crate::dump::observe(&t.screen, with_dirty, with_sp))
+    }));
+    match r {
+        Ok(x) => x,
+        Err(_) => Err("panic".to_string()),
+    }
+}
+
+fn sp_count(obs: &str) -> Option<usize> {
+    obs.split_whitespace().find(|t| t.starts_with("sp")).and_then(|t| t[2..].parse().ok())
+}
+
+fn strip_sp(obs: &str) -> String {
+    obs.split_whitespace().filter(|t| !t.starts_with("sp")).collect::<Vec<_>>().join(" ")
+}
+
+/// Merge all consecutive feeds of a session into single feeds.
+fn merge_feeds(s: &Session) -> Session {
+    let mut ops: Vec<Op> = vec![];
+    for op in &s.ops {
+        match (ops.last_mut(), op) {
+            (Some(Op::Feed(a)), Op::Feed(b)) => a.push_str(b),
+            (Some(Op::FeedB(a)), Op::FeedB(b)) => a.extend_from_slice(b),
+            _ => ops.push(op.clone()),
+        }
+    }
+    Session { ops, ..s.clone() }
+}
+
+fn rechunk(r: &mut Rng, s: &Session, mode: u32) -> Session {
+    let mut ops = vec![];
+    for op in &s.ops {
+        match op {
+            Op::Feed(t) => {
+                if mode == 0 {
+                    for c in t.chars() {
+                        ops.push(Op::Feed(c.to_string()));
+                    }
+                } else {
+                    for ch in gen::split_chars(r, t) {
+                        ops.push(Op::Feed(ch));
+                    }
+                }
+            }
+            Op::FeedB(b) => {
+                if mode == 0 {
+                    for x in b {
+                        ops.push(Op::FeedB(vec![*x]));
+                    }
+                } else {
+                    for ch in gen::split_bytes(r, b) {
+                        ops.push(Op::FeedB(ch));
+                    }
+                }
+            }
+            o => ops.push(o.clone()),
+        }
+    }
+    Session { ops, ..s.clone() }
+}
+
+/// A stream-only session (everything through the parser), for C02.
+fn stream_session(r: &mut Rng, id: String, bytes: bool, nops: u32) -> Session {
+    let (cols, lines) = gen::geometry(r);
+    let mut text = String::new();
+    let mut raw: Vec<u8> = vec![];
+    let eight_bit = bytes && r.chance(1, 4);
+    for _ in 0..nops {
+        if r.chance(1, 8) {
+            let g = gen::garbage(r);
+            text.push_str(&g);
+            raw.extend_from_slice(g.as_bytes());
+            continue;
+        }
+        if bytes && r.chance(1, 8) {
+            raw.extend_from_slice(&gen::utf8_garbage(r));
+            continue;
+        }
+        let c = gen::call(r, cols, lines, "any");
+        if let Some(t) = gen::render(r, &c) {
+            text.push_str(&t);
+            if eight_bit {
+                raw.extend(t.chars().map(|c| if (c as u32) < 256 { c as u32 as u8 } else { b'?' }));
+            } else {
+                raw.extend_from_slice(t.as_bytes());
+            }
+        }
+    }
+    let mut ops = vec![];
+    if eight_bit {
+        ops.push(Op::Charset("@".into()));
+    }
+    if bytes {
+        ops.push(Op::FeedB(raw));
+    } else {
+        ops.push(Op::Feed(text));
+    }
+    Session { columns: cols, lines, bytes, id, ops }
+}
+
+fn captured_sessions() -> Vec<(String, Vec<u8>)> {
+    let mut out = vec![];
+    for name in ["cat-gpl3", "find-etc", "htop", "ls", "mc", "top", "vi"] {
+        if let Ok(b) = std::fs::read(format!("/repo/assets/captured/{}.input", name)) {
+            out.push((name.to_string(), b));
+        }
+    }
+    out
+}
+
+pub struct MetaOut {
+    pub lines: Vec<String>,
+    pub fails: Vec<(String, String)>, // (description, session text(s))
+}
+
+pub fn meta(prop: &str, tier: &str, seed: u64) -> String {
+    let mut r = Rng::new(seed ^ 0x5151 ^ (prop.bytes().fold(0u64, |a, b| a * 131 + b as u64)));
+    let mut out = String::new();
+    let mut n = 0u32;
+    let mut nfail = 0u32;
+    let mut sample = String::new();
+    let mut fail = |out: &mut String, what: &str, a: &Session, b: &Session| {
+        out.push_str(&format!("METAFAIL {} {}\n", prop, what));
+        out.push_str("#A\n");
+        out.push_str(&a.text());
+        out.push_str("#B\n");
+        out.push_str(&b.text());
+        out.push_str("#END\n");
+    };
+    match prop {
+        "C02" | "C11" => {
+            let k = counts(tier, 300, 6000);
+            for i in 0..k {
+                let bytes = prop == "C11" || r.chance(1, 2);
+                let nops = r.range(3, 40);
+                let base = stream_session(&mut r, format!("{}m{}", prop, i), bytes, nops);
+                let whole = final_obs(&base, true, true);
+                for mode in 0..3 {
+                    let re = rechunk(&mut r, &base, mode);
+                    let got = final_obs(&re, true, true);
+                    n += 1;
+                    if got != whole {
+                        nfail += 1;
+                        fail(&mut out, "chunking changes the final state", &base, &re);
+                    }
+                }
+                if i == 0 {
+                    sample = base.text();
+                }
+            }
+            // every 2-way split of short streams
+            let k2 = counts(tier, 150, 3000);
+            for i in 0..k2 {
+                let bytes = prop == "C11" || r.chance(1, 2);
+                let base = stream_session(&mut r, format!("{}s{}", prop, i), bytes, 2);
+                let whole = final_obs(&base, true, true);
+                let len = base.ops.iter().map(|o| match o { Op::Feed(t) => t.chars().count(), Op::FeedB(b) => b.len(), _ => 0 }).sum::<usize>();
+                for cut in 0..=len.min(40) {
+                    let mut ops = vec![];
+                    for op in &base.ops {
+                        match op {
+                            Op::Feed(t) => {
+                                let cs: Vec<char> = t.chars().collect();
+                                let c = cut.min(cs.len());
+                                ops.push(Op::Feed(cs[..c].iter().collect()));
+                                ops.push(Op::Feed(cs[c..].iter().collect()));
+                            }
+                            Op::FeedB(b) => {
+                                let c = cut.min(b.len());
+                                ops.push(Op::FeedB(b[..c].to_vec()));
+                                ops.push(Op::FeedB(b[c..].to_vec()));
+                            }
+                            o => ops.push(o.clone()),
+                        }
+                    }
+                    let re = Session { ops, ..base.clone() };
+                    n += 1;
+                    if final_obs(&re, true, true) != whole {
+                        nfail += 1;
+                        fail(&mut out, "2-way split changes the final state", &base, &re);
+                    }
+                }
+            }
+            // captured sessions under random chunkings
+            let reps = counts(tier, 3, 40);
+            for (name, data) in captured_sessions() {
+                let base = Session { columns: 80, lines: 24, bytes: true, id: format!("cap-{}", name), ops: vec![Op::FeedB(data)] };
+                let whole = final_obs(&base, true, true);
+                for _ in 0..reps {
+                    let re = rechunk(&mut r, &base, 1);
+                    n += 1;
+                    if final_obs(&re, true, true) != whole {
+                        nfail += 1;
+                        fail(&mut out, "captured session: chunking changes the final state", &base, &re);
+                    }
+                }
+            }
+        }
+        "C10" => {
+            let k = counts(tier, 400, 8000);
+            for i in 0..k {
+                let mut rr = r.fork();
+                let nops = rr.range(2, 30);
+                let via = rr.below(3);
+                let bytes = rr.chance(1, 5);
+                let base0 = gen::session(&mut rr, format!("C10m{}", i), "draw", nops, via, bytes);
+                // the base history has no display() at all
+                let base = Session { ops: base0.ops.iter().filter(|o| !matches!(o, Op::Api(Call::Display))).cloned().collect(), ..base0 };
+                let want = final_obs(&base, true, true);
+                for _ in 0..3 {
+                    let mut ops = vec![];
+                    for op in &base.ops {
+                        if rr.chance(1, 3) {
+                            ops.push(Op::Api(Call::Display));
+                            if rr.chance(1, 4) {
+                                ops.push(Op::Api(Call::Display));
+                            }
+                        }
+                        ops.push(op.clone());
+                    }
+                    ops.push(Op::Api(Call::Display));
+                    let re = Session { ops, ..base.clone() };
+                    n += 1;
+                    if final_obs(&re, true, true) != want {
+                        nfail += 1;
+                        fail(&mut out, "interposed display() changes the final state", &base, &re);
+                    }
+                }
+                if i == 0 {
+                    sample = base.text();
+                }
+            }
+        }
+        "C15" => {
+            let k = counts(tier, 400, 8000);
+            for i in 0..k {
+                let mut rr = r.fork();
+                let nh = rr.range(0, 30);
+                let nt = rr.range(1, 20);
+                let via_h = rr.below(3);
+                let h = gen::session_opts(&mut rr, format!("C15h{}", i), "any", nh, via_h, false, false);
+                // geometry at the point of RIS
+                let mut probe = h.clone();
+                probe.ops.push(Op::Api(Call::Reset));
+                let (cols, lines, depth) = {
+                    use crate::exec::Runner;
+                    let mut run = Runner::new(probe.columns, probe.lines, false);
+                    run.tap.lock().unwrap().quiet = true;
+                    for op in &probe.ops {
+                        run.step(op);
+                    }
+                    let t = run.tap.lock().unwrap();
+                    (t.screen.columns, t.screen.lines, t.screen.savepoints.len())
+                };
+                // continuation without DECRC, API level or parser level
+                let mut t_ops = vec![];
+                let mut c2 = cols;
+                let mut l2 = lines;
+                for _ in 0..nt {
+                    let c = gen::call(&mut rr, c2, l2, "any");
+                    if matches!(c, Call::RestoreCursor) {
+                        continue;
+                    }
+                    if let Call::Resize(l, c3) = &c {
+                        l2 = l.unwrap_or(l2);
+                        c2 = c3.unwrap_or(c2);
+                    }
+                    if rr.chance(1, 2) {
+                        if let Some(s) = gen::render(&mut rr, &c) {
+                            t_ops.push(Op::Feed(s));
+                            continue;
+                        }
+                    }
+                    t_ops.push(Op::Api(c));
+                }
+                let mut a = h.clone();
+                if rr.chance(1, 2) {
+                    a.ops.push(Op::Api(Call::Reset));
+                } else {
+                    a.ops.push(Op::Feed("\x1bc".to_string()));
+                }
+                let just_reset = a.clone();
+                a.ops.extend(t_ops.clone());
+                let fresh0 = Session { columns: cols, lines, bytes: false, id: format!("C15f{}", i), ops: vec![] };
+                let fresh = Session { ops: t_ops.clone(), ..fresh0.clone() };
+                n += 1;
+                // (1) right after RIS: equals a new screen, every row dirty
+                let ra = final_obs(&just_reset, true, false);
+                let rf = final_obs(&fresh0, true, false);
+                if ra.as_ref().map(|s| strip_sp(s)) != rf.as_ref().map(|s| strip_sp(s)) {
+                    nfail += 1;
+                    fail(&mut out, "state after RIS differs from a new screen", &just_reset, &fresh0);
+                    continue;
+                }
+                // (2) same continuation, same state (stack depth differs by the depth at RIS)
+                let oa = final_obs(&a, true, false);
+                let of = final_obs(&fresh, true, false);
+                let same = match (&oa, &of) {
+                    (Ok(x), Ok(y)) => strip_sp(x) == strip_sp(y) && sp_count(x) == sp_count(y).map(|d| d + depth),
+                    _ => false,
+                };
+                if !same {
+                    nfail += 1;
+                    fail(&mut out, "continuation after RIS differs from the same input on a new screen", &a, &fresh);
+                }
+                if i == 0 {
+                    sample = a.text();
+                }
+            }
+        }
+        _ => {}
+    }
+    let _ = merge_feeds;
+    out.push_str(&format!("METASUMMARY prop={} evaluations={} failures={}\n", prop, n, nfail));
+    out.push_str("#SAMPLE\n");
+    out.push_str(&sample);
+    out
 }
